@@ -1662,7 +1662,7 @@ def run(ctx):
             segs = segments(per_case[cid][t])
             parts = []
             if c["format"] in BYTE_FORMATS:
-                th = "(Thr %s %s)" % (B("wk%02d" % t), B(o["tids"][t]))
+                th = "(Thr %s %s)" % (B("wk%02d" % t), B(o["tids_plain" if c["format"] == "pretty" else "tids"][t]))
                 O = "(Opts %s %s %s %s %s %s %s)" % tuple(cb_(opts.get(k)) for k in ("timer", "level", "tname", "tid", "target", "file", "line"))
                 SC = "(SpanCfg %s %s %s %s)" % tuple(cb_(k in opts.get("span_events", [])) for k in ("new", "enter", "exit", "close"))
                 mops = model_ops(c, t)
